@@ -8,11 +8,14 @@ CONSTANTS
   PubPaths = {1, 2}
   MaxRuns = 2
   Modes = {"image", "sign", "auth"}
-  Iters = {0, 1, 65535}
+  Iters = {1, 2}
   OutPaths = {0, 1, 2}
   MaxSteps = 3
+  SizeClasses <- AllSizes
+  UnitLens <- UnitLensFull
   Variant = "ok"
 INVARIANT HashInputOk
+INVARIANT HashedLength
 INVARIANT SinglePub
 INVARIANT SigVerifies
 INVARIANT PrivNotWritten
